@@ -1,6 +1,7 @@
 """C20 - independent trees can be used from different threads concurrently."""
 import os
 import random
+import re
 import subprocess
 
 from hypothesis import strategies as st
@@ -82,6 +83,38 @@ def thread_program():
     return st.tuples(head, core, st.lists(st.one_of(op, op, util), min_size=3, max_size=30)).map(lambda t: t[0] + t[1] + t[2])
 
 
+def unexcused_report(stderr, stdout, stats=None):
+    """first ThreadSanitizer report that is not a data race on the documented global error position.  The position's address is
+    found by the driver by behaviour (lines "ERRPOS lo hi": the words of the data segment that follow the error offset of two
+    failing probe parses), never by symbol name, so renaming or re-shaping that global changes nothing here."""
+    if "ThreadSanitizer" not in stderr:
+        return None
+    ranges = []
+    for l in stdout.splitlines():
+        if l.startswith("ERRPOS "):
+            _, lo, hi = l.split()
+            ranges.append((int(lo, 16), int(hi, 16)))
+    ranges.sort()
+    merged = []
+    for lo, hi in ranges:
+        if merged and lo <= merged[-1][1]:
+            merged[-1][1] = max(merged[-1][1], hi)
+        else:
+            merged.append([lo, hi])
+    for b in stderr.split("=================="):
+        if "WARNING: ThreadSanitizer" not in b:
+            continue
+        if "data race" in b and "Location is global" in b and merged:
+            # the racing accesses: "Write of size 8 at 0x... by thread T1:" / "Previous read of size 8 at 0x... by main thread:"
+            accs = [(int(a.group(2), 16), int(a.group(1))) for a in re.finditer(r"of size (\d+) at (0x[0-9a-f]+) by", b)]
+            if accs and all(any(lo <= a and a + n <= hi for lo, hi in merged) for a, n in accs):
+                if stats is not None:
+                    stats.cls("documented_error_position_race_excused")
+                continue
+        return b
+    return None
+
+
 class C20(Prop):
     ID = "C20"
     NEEDS_TSAN = True
@@ -94,20 +127,24 @@ class C20(Prop):
             "duplicate, compare, minify, edits (add/detach/replace/insert/set), JSON pointer get/find, patch generate/apply, merge patch "
             "apply/generate, sort, delete; never cJSON_GetErrorPtr / cJSON_InitHooks / setlocale. A driver built with gcc -fsanitize=thread "
             "(library and driver instrumented) runs every program alone (reference digest of all results) and then all of them concurrently "
-            "behind a barrier for 3 rounds (the first one before anything else has used the library in the process), and finally 2-4 times in ONE thread with the calls of all programs interleaved in a drawn order (schedule owned by the harness, call granularity). Texts come from a fixed pool and from the shared document generator (all escape kinds, surrogate pairs, long strings, BOM). Oracle: no ThreadSanitizer report other than the documented global error position "
-            "(suppression race:global_error) and every concurrent digest equals the solo digest. non-trivial = >= 2 threads that each "
+            "behind a barrier for 3 rounds (the first one before anything else has used the library in the process), and finally 2-4 times in ONE thread with the calls of all programs interleaved in a drawn order (schedule owned by the harness, call granularity). In half of the cases custom allocation hooks (thread-safe, no realloc) are installed before the threads start, and a thread's k-th request inside core API calls may be refused (the solo run refuses the same request). Texts come from a fixed pool and from the shared document generator (all escape kinds, surrogate pairs, long strings, BOM). Oracle: no ThreadSanitizer report other than a data race whose every access lies in the documented global error position "
+            "(located by behaviour: the words of the data segment that track the error offset of two failing probe parses; no symbol name is used) and every concurrent digest equals the solo digest. non-trivial = >= 2 threads that each "
             "execute a parse and a print of a tree containing numbers; distinct by case hash")
     ASSUMPTIONS = ["the harness does not own the scheduler: race detection is happens-before based (both accesses must be executed, not interleaved), "
                    "order-dependent but race-free defects are visible only under the schedules the OS produces",
                    "only instrumented code is observed (libc internals are not)"]
-    REQUIRED_CLASSES = ["nontrivial", "threads>=4", "utils_ops", "generated_text", "interleaved_schedules"]
+    REQUIRED_CLASSES = ["nontrivial", "threads>=4", "utils_ops", "generated_text", "interleaved_schedules", "custom_hooks", "allocation_failure_in_thread"]
 
     def budget(self, tier):
         return {"workers": 14, "examples": 45 if tier == "quick" else 1200}
 
     def strategy(self, tier):
         return st.fixed_dictionaries({"threads": st.lists(thread_program(), min_size=2, max_size=6),
-                                      "schedules": st.lists(st.integers(0, 2 ** 31 - 1), min_size=2, max_size=4)})
+                                      "schedules": st.lists(st.integers(0, 2 ** 31 - 1), min_size=2, max_size=4),
+                                      # custom allocation hooks installed before the threads start (no realloc inside the library then);
+                                      # failat[i] > 0: the i-th thread's k-th request inside core API calls is refused
+                                      "hooks": st.booleans(),
+                                      "failat": st.lists(st.one_of(st.just(0), st.integers(1, 40), st.integers(1, 400)), min_size=6, max_size=6)})
 
     def run_case(self, lib, case, stats):
         driver = os.environ.get("VERIF_TSAN_DRIVER")
@@ -116,6 +153,14 @@ class C20(Prop):
             raise RuntimeError("VERIF_TSAN_DRIVER not set")
         path = os.path.join(bdir, "tsan_case.%d.txt" % os.getpid())
         lines = ["threads %d" % len(case["threads"]), "rounds 3"] + ["schedule %d" % x for x in case.get("schedules", [])]
+        if case.get("hooks"):
+            lines.append("hooks 1")
+            stats.cls("custom_hooks")
+            for tid in range(len(case["threads"])):
+                k = (case.get("failat") or [0] * 6)[tid % 6]
+                if k:
+                    lines.append("failat %d %d" % (tid, k))
+                    stats.cls("allocation_failure_in_thread")
         prints = 0
         for tid, prog in enumerate(case["threads"]):
             for op in prog:
@@ -123,9 +168,8 @@ class C20(Prop):
                 lines.append("%d %s %d %d %d %d %s" % (tid, op[0], op[1], op[2], op[3], op[4], s.hex() if s else "-"))
         with open(path, "w") as f:
             f.write("\n".join(lines) + "\n")
-        supp = os.path.join(os.path.dirname(os.path.dirname(os.path.dirname(os.path.abspath(__file__)))), "native", "tsan.supp")
         env = {"PATH": os.environ.get("PATH", "/usr/bin:/bin"),
-               "TSAN_OPTIONS": "exitcode=66:halt_on_error=0:suppressions=%s:report_signal_unsafe=0:print_suppressions=0" % supp}
+               "TSAN_OPTIONS": "exitcode=0:halt_on_error=0:report_signal_unsafe=0:print_suppressions=0:history_size=4"}
         try:
             p = subprocess.run([driver, path], env=env, stdout=subprocess.PIPE, stderr=subprocess.PIPE, text=True, errors="replace", timeout=300)
         except subprocess.TimeoutExpired:
@@ -144,8 +188,9 @@ class C20(Prop):
             stats.cls("nontrivial")
             stats.nontriv(case, {"threads": nthr, "ops_per_thread": [len(t) for t in case["threads"]],
                                  "first_thread": ["%s %d %d %d" % (o[0], o[1], o[2], o[3]) for o in case["threads"][0][:10]]})
-        if "ThreadSanitizer" in p.stderr:
-            first = [l for l in p.stderr.splitlines() if "WARNING: ThreadSanitizer" in l or l.strip().startswith("#0") or "Location is" in l or "SUMMARY" in l]
+        bad_report = unexcused_report(p.stderr, p.stdout, stats)
+        if bad_report:
+            first = [l for l in bad_report.splitlines() if "WARNING: ThreadSanitizer" in l or l.strip().startswith("#0") or "Location is" in l or "SUMMARY" in l]
             raise Violation("ThreadSanitizer report: " + " | ".join(x.strip() for x in first[:6]), key="race")
         if "DIGEST-MISMATCH" in p.stdout:
             raise Violation("a thread got different results than when running alone: " + [l for l in p.stdout.splitlines() if "MISMATCH" in l][0], key="digest")
